@@ -3,9 +3,9 @@ From Msm Require Import Run Lemmas_Chain Lemmas_Rows Lemmas_Regions.
 
 (* the event is offered to the regions 0,1,...,n-1 - each exactly once, in this order, each reacting from its own
    active id at that moment - and the codes are OR-ed (back / back11 / favor_compile_time) *)
-Theorem C06_regions_once_in_order_back : forall cf parents mc children fuel ev n r acc rn g,
-  regions_loop cf parents mc children fuel ev n r acc rn g =
-  seq_or (region_step cf parents mc children fuel ev) (seqn r n) acc rn g.
+Theorem C06_regions_once_in_order_back : forall cf parents contained mc children fuel ev n r acc rn g,
+  regions_loop cf parents contained mc children fuel ev n r acc rn g =
+  seq_or (region_step cf parents contained mc children fuel ev) (seqn r n) acc rn g.
 Proof. exact regions_loop_seq. Qed.
 Print Assumptions C06_regions_once_in_order_back.
 
